@@ -90,6 +90,7 @@ func mustBig(x *big.Int) {
 // questions about them (zero? ordering?) are answered by uninterpreted predicates
 var bigOpaque = map[*big.Int]bool{}
 var zerosUsed int
+var bigZeroKnown = map[*big.Int]int{}
 
 func opaque2(op string, n int, x, y *big.Int) []byte {
 	mustBig(x)
@@ -173,6 +174,7 @@ func BigSet(z, x *big.Int) *big.Int {
 	bigSet[z] = true
 	bigNegative[z] = bigNegative[x]
 	bigOpaque[z] = bigOpaque[x]
+	bigZeroKnown[z] = bigZeroKnown[x]
 	return z
 }
 
@@ -203,9 +205,17 @@ func BigRsh(z, x *big.Int, n uint) *big.Int {
 func BigSignS(z *big.Int) int {
 	mustBig(z)
 	if bigOpaque[z] {
-		// an arithmetic result may be zero, at most once per execution (retry loops stay bounded)
-		if zerosUsed < 1 && vFreshBool("big_iszero") {
-			zerosUsed++
+		// an arithmetic result may be zero, at most once per execution (retry loops stay bounded);
+		// the answer for one integer object is decided once and then kept
+		if bigZeroKnown[z] == 0 {
+			if zerosUsed < 1 && vFreshBool("big_iszero") {
+				zerosUsed++
+				bigZeroKnown[z] = 2
+			} else {
+				bigZeroKnown[z] = 1
+			}
+		}
+		if bigZeroKnown[z] == 2 {
 			return 0
 		}
 		if bigNegative[z] {
